@@ -53,6 +53,22 @@ def gen_case(g):
     poly = g.poly(shape=shape, names=names, kind="int" if kind == "bool" else kind, nterms=nterms,
                   maxexp=rng.choice([2, 3, 12]), via=rng.choice(["attrs", "attrs", "retain"]),
                   allow_views=False)
+    if rng.random() < 0.05:
+        # many indeterminates with fairly high powers, or a few with very high ones: every term is
+        # far from the others in the monomial order, and any packed sort code has to be wide
+        # (seed C16-r13-1: int64 sort code that wraps once the degree is added as leading digit)
+        if rng.random() < 0.5:
+            names = [f"q{i}" for i in range(13)]
+            rows = {tuple(rng.randint(20, 27) if rng.random() < 0.85 else 0 for _ in names)
+                    for _ in range(rng.randint(2, 5))}
+        else:
+            names = ["q0", "q1", "q2"]
+            rows = {tuple(rng.choice([0, 1, 54000, 53999, 54000, 40000]) for _ in names)
+                    for _ in range(rng.randint(2, 5))}
+        if shape == ():
+            shape = (2,)
+        poly["names"], poly["exps"], poly["shape"] = names, [list(r) for r in sorted(rows)], list(shape)
+        poly.pop("view", None)
     layout = rng.choice(["C", "C", "T", "F"]) if len(shape) >= 2 else "C"
     pool = {
         "int": [1, -1, 1, -1, 2, -3, 0, 7, 10, -25],
